@@ -23,7 +23,7 @@ BOUNDS = {
                   'all 8 actions x 4 headings on shapes with <=4 cells, one action/heading beyond (the function never reads them)',
                   teleport='every layout over {Floor, Wall, Telepod(RED), Telepod(BLUE)} of shapes with <=6 cells and 3x3 over {Floor, Telepod(RED)} with <=3 telepods; '
                   'agent on every cell, all actions on shapes <=4 cells'),
-    'thorough': dict(move_obstacles='as quick plus 3x3 with at most 2 obstacles and 2x4/4x2 over 3 objects', teleport='as quick plus 2x4 and 3x3 with <=4 telepods over 2 colours'),
+    'thorough': dict(move_obstacles='as quick plus 3x3 with at most 2 obstacles and 2x4/4x2 over 3 objects', teleport='as quick plus 2x4 over {Floor, Telepod(RED), Telepod(BLUE)} and 3x3 with <=4 telepods over 2 colours'),
 }
 OUTSIDE = 'larger grids / more obstacles (all 4^9 layouts of 3x3 are ~10^6-10^7 paths); no distributional claim (uniformity) is made'
 ASSUMPTIONS = ['numpy Generator contract as stubbed by SymRng: choice(n) returns any index in [0,n), raises ValueError for n=0']
@@ -267,7 +267,8 @@ def obligations(tier):
         obs.append(Obligation(f'teleport-{H}x{W}-all-actions', mk_teleport(H, W, TEL4), dict(H=H, W=W, alphabet=[e[0] for e in TEL4], actions='all'),
                               finalize=teleport_finalize))
     for (H, W) in [(2, 3), (3, 2)] + ([] if q else [(2, 4)]):
-        obs.append(Obligation(f'teleport-{H}x{W}', mk_teleport(H, W, TEL4, all_actions=False), dict(H=H, W=W, alphabet=[e[0] for e in TEL4]),
+        sg = TEL4 if H * W <= 6 else TEL4[:1] + TEL4[2:]  # 8 cells: without Wall
+        obs.append(Obligation(f'teleport-{H}x{W}', mk_teleport(H, W, sg, all_actions=False), dict(H=H, W=W, alphabet=[e[0] for e in sg]),
                               finalize=teleport_finalize))
     k = 3 if q else 4
     obs.append(Obligation(f'teleport-3x3-max{k}', mk_teleport(3, 3, TEL2 if q else TEL4[:1] + TEL4[2:], max_telepods=k, all_actions=False),
